@@ -17,6 +17,7 @@ import (
 	"servitor/client"
 	"servitor/config"
 	"servitor/pub"
+	"servitor/ui"
 	"servitor/verifkit/ev"
 	"servitor/verifkit/gen"
 	"servitor/verifkit/sim"
@@ -487,6 +488,72 @@ func TestVerifC05(t *testing.T) {
 		}(j)
 	}
 	wg.Wait()
+	// ---------- Part 3: the same faults seen from the UI: the loading screen must give way to an error item in time, and keys must still be handled ----------
+	uiFaults := []struct {
+		kind string
+		plan func(h hop) sim.Plan
+	}{
+		{"stall:post-handshake", func(h hop) sim.Plan { return sim.Plan{StallStage: "post-handshake", HoldMax: 45 * time.Second} }},
+		{"stall:mid-body", func(h hop) sim.Plan {
+			p := sim.Respond([]byte(h.raw))
+			p.StallAt, p.HoldMax = len(h.raw)-10, 45*time.Second
+			return p
+		}},
+		{"cut:mid-body", func(h hop) sim.Plan { p := sim.Respond([]byte(h.raw)); p.CutAt = len(h.raw) - 10; p.Close = "rst"; return p }},
+		{"trickle:headers", func(h hop) sim.Plan {
+			p := sim.Respond([]byte(h.raw))
+			p.TrickleFrom, p.TrickleDelay, p.HoldMax = 20, 300*time.Millisecond, 45*time.Second
+			return p
+		}},
+	}
+	for ui_i, uf := range uiFaults {
+		n := 1<<22 + ui_i // the same index in every shard
+		if !c.Mine(n) || !c.Begin(n, "ui "+uf.kind) {
+			continue
+		}
+		ch := corpus[2] // one redirect, then the document
+		start, hops := install(ch, 1, uf.plan)
+		f := fault{Chain: ch.name, Hop: 1, Kind: "ui:" + uf.kind, Via: "ui.State"}
+		var fmu sync.Mutex
+		lastFrame := ""
+		frames := 0
+		state := ui.NewState(80, 24, func(fr string) { fmu.Lock(); lastFrame = fr; frames++; fmu.Unlock() })
+		t0 := time.Now()
+		if err := state.Subcommand("open", start); err != nil {
+			c.Violation("fault:ui-startup", err.Error(), f)
+			continue
+		}
+		bound := time.Duration(hops) * perHop
+		shown := false
+		for time.Since(t0) < time.Duration(hops)*hangPerHop {
+			fmu.Lock()
+			fr := lastFrame
+			fmu.Unlock()
+			if fr != "" && !strings.Contains(fr, "Loading") {
+				shown = true
+				break
+			}
+			time.Sleep(20 * time.Millisecond)
+		}
+		el := time.Since(t0)
+		switch {
+		case !shown:
+			c.Violation("fault:ui-hang:"+uf.kind, fmt.Sprintf("%+v: the loading screen was still shown after %v", f, el.Round(time.Millisecond)), f)
+		case el > bound:
+			c.Violation("fault:ui-late:"+uf.kind, fmt.Sprintf("%+v: the loading screen lasted %v, bound %v", f, el.Round(time.Millisecond), bound), f)
+		default:
+			// keys are still handled
+			done := make(chan struct{})
+			go func() { state.Update('j'); state.Update('k'); close(done) }()
+			select {
+			case <-done:
+				c.Count("ui_fault_cases", 1)
+			case <-time.After(10 * time.Second):
+				c.Violation("fault:ui-unresponsive:"+uf.kind, fmt.Sprintf("%+v: keys are not handled after the failed load", f), f)
+			}
+		}
+		c.NontrivialEnumerated()
+	}
 	s.ReleaseStalls()
 	if len(jobs) > 0 {
 		c.Sample(jobs[0].f)
